@@ -351,7 +351,10 @@ func (w *verifWorld) setup() {
 	if c.Draw("two-snaps", 3) == 2 {
 		w.snaps = append(w.snaps, verifSnapDef{"beta", snap.R(-2), "2.1+git"})
 	}
-	nu := c.Draw("nusers", 3)
+	nu := c.Draw("nusers", 4)
+	if nu == 3 {
+		nu = 2
+	}
 	for i := 0; i < nu; i++ {
 		name := []string{"ann", "bob"}[i]
 		w.users = append(w.users, verifUser{name, filepath.Join(w.root, "home", name)})
@@ -560,8 +563,8 @@ func verifScaled(c *verifsim.Ctx, label string, n int) int {
 // a label ("" = left alone).
 func (w *verifWorld) corrupt(sh *verifShot) string {
 	c := w.c
-	kind := c.Draw("corrupt", 12)
-	if kind == 0 {
+	kind := c.Draw("corrupt", 17) - 5
+	if kind <= 0 {
 		return ""
 	}
 	if sh.spec == nil || len(sh.spec.members) == 0 {
@@ -813,7 +816,7 @@ func (w *verifWorld) opRestore() {
 	}
 
 	// the check-snapshot task that precedes restore-snapshot in snapd
-	mode := c.Draw("mode", 4) // 0,1: restore directly; 2: check first; 3: check with a context cancelled on the way
+	mode := c.Draw("mode", 6) - 2 // <2: restore directly; 2: check first; 3: check with a context cancelled on the way
 	if mode >= 2 {
 		cc := &verifCountCtx{Context: context.Background()}
 		cc.Context, cc.cancel = context.WithCancel(context.Background())
@@ -875,10 +878,15 @@ func (w *verifWorld) opRestore() {
 			}
 		}
 	}
+	// (A small Go map is walked from a random slot on, wrapping around, and
+	// the metadata decoder filled it in sorted key order: only rotations of
+	// the sorted list can occur, so a rotation is what is drawn.)
 	order := make([]string, len(active))
-	for i, p := range c.Perm("archive-order", len(active)) {
-		order[i] = active[p]
+	rot := c.Draw("archive-order", len(active))
+	for i := range active {
+		order[i] = active[(i+rot)%len(active)]
 	}
+	orderDrawn := append([]string(nil), order...)
 	isActive := func(name string) bool {
 		for _, o := range order {
 			if o == name {
@@ -898,8 +906,12 @@ func (w *verifWorld) opRestore() {
 	attempts := 0
 	for {
 		attempts++
-		if attempts > 2000 {
-			verifHarnessFail("Restore never used archive order %v", order)
+		if attempts == 200 {
+			// never seen; should the runtime walk maps differently one day,
+			// take the order as it comes (the verdicts on a correct snapd do
+			// not depend on it) and say so in the evidence
+			c.Count("restore-order-not-forced")
+			order = nil
 		}
 		base, cancel := context.WithCancel(context.Background())
 		if fault == 3 {
@@ -983,6 +995,9 @@ func (w *verifWorld) opRestore() {
 			break
 		}
 		c.Count("restore-order-retries")
+		if os.Getenv("VERIF_C32_DEBUG") != "" {
+			fmt.Fprintf(os.Stderr, "retry %d: order=%v pos=%d tarCalls=%d rerr=%v iterOpen=%v iterEvent=%v\n", attempts, order, pos, tarCalls, rerr, iterOpen, iterEvent)
+		}
 		if err := verifSyncDisk(w.top, w.snapsDir, before); err != nil {
 			verifHarnessFail("cannot roll back the scratch root: %v", err)
 		}
@@ -994,7 +1009,7 @@ func (w *verifWorld) opRestore() {
 		c.Count("restores-of-damaged-snapshot")
 	}
 	c.Logf("restore %s damage=%q users=%v current=%q archives=%d order=%v fault=%q: failed=%v", filepath.Base(sh.file), damage, usernames,
-		current.String(), len(entries), order, fired, rerr != nil)
+		current.String(), len(entries), orderDrawn, fired, rerr != nil)
 
 	after := w.image()
 	if rerr != nil {
